@@ -76,6 +76,9 @@ def represent(epoch, rep):
     raise AssertionError(rep)
 
 
+PROCESS_ZONE = [None]
+
+
 def rand_rep(rng, bias_naive=0.45):
     r = rng.random()
     if r < bias_naive:
@@ -84,6 +87,10 @@ def rand_rep(rng, bias_naive=0.45):
         return ("aware_utc",)
     if r < bias_naive + 0.4:
         return ("fixed", rng.choice([-720, -570, -300, -60, 0, 60, 330, 345, 525, 765, 840]))
+    if PROCESS_ZONE[0] and rng.random() < 0.5:
+        # aware datetimes in the zone whose transition the instants straddle (several of them then share one ZoneInfo object:
+        # Python compares such values by wall clock, ignoring fold - they must be compared as instants all the same)
+        return ("zone", PROCESS_ZONE[0])
     return ("zone", rng.choice(OTHER + ZONES))
 
 
@@ -99,6 +106,7 @@ def run_case(desc):
     zone = desc["zone"]
     old_tz = os.environ.get("TZ")
     set_tz(zone)
+    PROCESS_ZONE[0] = zone if zone != "UTC" else None
     try:
         if desc["mode"] == "file":
             return run_file(desc, rng, zone)
@@ -170,6 +178,7 @@ def run_case(desc):
             res.update(status="violation", detail=f"[TZ={zone} {kind}] {bad}", mechanism=mech, witness=dict(info, plan=S.describe(50)))
         return res
     finally:
+        PROCESS_ZONE[0] = None
         if old_tz is None:
             os.environ.pop("TZ", None)
         else:
@@ -202,7 +211,7 @@ def run_file(desc, rng, zone):
             s_.write(v)
             os.utime(s_.path, (t, t))
         # the source is a file store, or one of the bundled stores that take / report a datetime handed in by the user in any representation
-        src_kind = rng.choice(["json", "json", "mts", "lit", "path"])
+        src_kind = rng.choice(["json", "json", "mts", "lit", "path", "pathdir"])
         src_rep = rand_rep(rng, 0.3)
         if src_kind == "mts":
             stores[0] = ModifiedTimeSource(represent(ts[0], src_rep))
@@ -210,6 +219,30 @@ def run_file(desc, rng, zone):
             stores[0] = LiteralSource(1, represent(ts[0], src_rep))
         elif src_kind == "path":
             stores[0] = PathSource(paths[0])
+        elif src_kind == "pathdir":
+            # a directory as source: its modified time is the directory's own (set after its entries exist); entries carry other times
+            # from the same window, on both sides of the transition
+            dd = os.path.join(d, "srcdir")
+            os.mkdir(dd)
+            offs = [-3000, -1500, -600, -60]
+            if kind == "fall" and rng.random() < 0.7:
+                # the directory was last changed in the SECOND pass of the repeated hour, its entries in the first pass at a later wall-clock
+                # reading, and the downstream file was written in between
+                a_, b_ = rng.randint(60, 1700), rng.randint(60, 1700)
+                ts[0] = T0 + b_
+                offs = [-(a_ + b_)]
+                ts[1] = T0 - a_ + (a_ + b_) // 2
+                ts[2] = ts[0] + rng.choice([-30, 40, 500])
+                for s_, t in zip(stores[1:], ts[1:]):
+                    os.utime(s_.path, (t, t))
+            for j in range(3):
+                fp = os.path.join(dd, f"part{j}")
+                with open(fp, "w") as f:
+                    f.write("x")
+                te = ts[0] + rng.choice(offs)
+                os.utime(fp, (te, te))
+            os.utime(dd, (ts[0], ts[0]))
+            stores[0] = PathSource(dd)
         a = reg.source(plan, stores[0])
         b = plan.call(lambda x: 2, a)
         reg.add(b, stores[1])
